@@ -319,3 +319,12 @@ def r08_7(ctx):
     for decl, exp in (("uint32_t t", ("uint32_t", "t")), ("const HexOp *RxV", ("const HexOp *", "RxV")), ("HexInsnPktBundle *bundle", ("HexInsnPktBundle *", "bundle")), ("int n", ("int", "n"))):
         outs = Interp(idx).explore(lambda i, decl=decl: i.call_function(fs, [decl]))
         ctx.check(f"split_var_decl[{decl}]", [o.value for o in outs] == [exp], str(exp), str([outcome_text(o) for o in outs]), fn_where(idx, fs))
+
+
+@rule("R08.8", "C08", "an argument is converted whatever kind of operand it is (incl. a forwarded parameter), and the set-up of immediates precedes every call that may read them", min_instances=20)
+def r08_8(ctx):
+    from .c03 import argument_kind_independence
+    from .c05 import r05_3
+
+    argument_kind_independence(ctx)
+    r05_3(ctx)
